@@ -367,6 +367,25 @@ def correspond(ctx):
                 co.note("iba ft " + ("active" if active else "passive") + (" mu_i=1" if mui == 1.0 else ""))
 
     # ---- SCE family
+    # the short-range second-order term compute_A2_local (4097-point Romberg integral of r acf(r), real and complex wavenumbers)
+    from smrt.emmodel import sce_common
+    for ms in [m_ for m_ in SCE_LOCAL_MS if m_ != "homogeneous"]:
+        for j in range(ctx.n(2, 8)):
+            lay, freq, d = gen_layer(rng, ms, dens_max=450 if "sticky" in ms else 900, size_lo=0.01)
+            mic = lay.microstructure
+            k0 = 2 * np.pi * freq / 299792458.0
+            Q = complex(k0 * np.sqrt(lay.permittivity(0, freq))) if j % 2 == 0 else complex(k0 * np.sqrt(1.3 + 0.4 * rng.random() + 1e-3j * rng.random()))
+            sl = float(mic.inv_slope_at_origin)
+            r = np.linspace(0, 8 * sl, 4097)
+            g = np.real(np.asarray(mic.autocorrelation_function(r), dtype=complex))
+            ft0 = float(np.squeeze(mic.ft_autocorrelation_function(0)))
+
+            def run(Q=Q, mic=mic):
+                a2 = complex(np.ravel(sce_common.compute_A2_local(Q if Q.imag != 0 else Q.real, mic))[0])
+                return [a2.real, a2.imag]
+            addv(co, "sce.A2_local", f"a2local {f2t(ft0)} {f2t(sl)} {cxt(Q)} " + fs(g), run, linemax=True, rel=1e-9,
+                 desc=dict(d, Q=[Q.real, Q.imag], what="compute_A2_local"))
+            co.note(f"compute_A2_local x {ms} " + ("real Q" if Q.imag == 0 else "complex Q"))
     for name, (op, mss) in SCES.items():
         for ms in mss:
             for _ in range(ctx.n(1, 4) if ms != "homogeneous" else 1):
